@@ -1,7 +1,7 @@
 (* Executable entry point of the C09 (ring operations) model, on flat buffers.
    header: be | rn rcols rsize rmax rcol | an acols asize amax acol | bn bcols bsize bmax bcol | extra...
    vs = [res_flat; a_flat; b_flat] (split/merge: see below).  Output: the whole result buffer(s). *)
-From PV Require Import Base.MachineInt Model.Znx Model.Limbs Model.Flat Model.Ring.
+From PV Require Import Base.MachineInt Model.Znx Model.Limbs Model.Flat Model.Ring Model.C09Big.
 Open Scope Z_scope.
 
 Definition p (ps : list Z) (i : nat) : Z := nth i ps 0.
@@ -55,5 +55,5 @@ Definition run_c09 (code : Z) (ps : list Z) (vs : list (list Z)) : option (list 
   | 9022 => (* merge_rings: vs = [res; part_0; ...], parts share the shape sa *)
       let parts := tl vs in
       out (vec_merge_rings n (map (getcol sa) parts) r0)
-  | _ => None
+  | _ => run_c09_big code ps vs   (* 9101..9116: the big-accumulator family (Model/C09Big.v); None elsewhere *)
   end.
